@@ -72,6 +72,8 @@ def run_case(rs, ctx):
         ctx.violation("Simulator.run raised %s: %s" % (type(ex).__name__, str(ex)[:120]), wit, kind="simulator_raised")
         return
     n = len(spec["d"])
+    if spec.get("threaded"):
+        ctx.count("threaded_simulations")
     if 0 < spec.get("chunk_size_used", 0) < spec["n_test"]:
         ctx.count("multi_chunk_simulations")
     want_idx = simreplay.expected_split(n, p["test_size"], p["is_ordered"], p["seed"])
